@@ -157,6 +157,16 @@ func dumpEngine(p *Program, what string) {
 	switch what {
 	case "flow":
 		newBuilderFlow(p).dump(p)
+	case "vers":
+		vt := buildVersTable(p)
+		fmt.Println("compat:", vt.ve.compat, "current:", vt.current, "problems:", vt.problems)
+		for _, v := range append(append([]string{}, vt.compatVer...), "0.5.13", "0.5.12-rc1", "garbage") {
+			fmt.Printf("== %q\n", v)
+			for _, pa := range vt.pathsOf(v) {
+				fmt.Println("   ", pa.String())
+			}
+		}
+		fmt.Println("undecided:", vt.ve.undecided)
 	case "block":
 		var n int
 		fmt.Sscan(os.Getenv("BLOCK"), &n)
